@@ -180,7 +180,7 @@ def main(chk):
                 chk.violation(key, '%s [%s]' % (text, cmd), files)
     chk.observe('histories_with_contended_grows', contended, 'set')
     chk.observe('distinct_grow_orders', len(sigs), 'set')
-    if contended < nh // 4:
+    if contended < nh // 8:
         chk.inconclusive('only %d histories had two or more threads growing successfully' % contended)
     chk.sample({'history': 'T=8 threads, 100 ops each: grow{0,1,2,3,max+1,65536+k}, size, store/load of private cells', 'limits': limits})
     chk.assume('linearizability is decided with interval bounds that are sound because sizes only increase; TSan explores the schedules that stress and the yield hook produce')
